@@ -31,6 +31,8 @@ inductive Err
   | outOfModel        -- a filter this model does not cover (CCITTFax)
   deriving DecidableEq, Repr
 
+deriving instance DecidableEq for Except
+
 def Err.name : Err → String
   | .binascii => "Error"
   | .valueError => "ValueError"
